@@ -28,11 +28,11 @@ func init() { drivers["C19"] = driveC19 }
 
 // ---- a variable tree with uploads, as plain data (for replay) ----
 type vtree struct {
-	Kind  string            `json:"k"` // null str num file obj arr
-	S     string            `json:"s,omitempty"`
-	File  int               `json:"f,omitempty"`
-	Obj   map[string]*vtree `json:"o,omitempty"`
-	Arr   []*vtree          `json:"a,omitempty"`
+	Kind string            `json:"k"` // null str num file obj arr
+	S    string            `json:"s,omitempty"`
+	File int               `json:"f,omitempty"`
+	Obj  map[string]*vtree `json:"o,omitempty"`
+	Arr  []*vtree          `json:"a,omitempty"`
 }
 
 type c19Case struct {
